@@ -698,6 +698,32 @@ def _c11_inventory(src: Src) -> str:
     return f"def stateInventory : List String := {lean_str_list(state_inventory(src))}"
 
 
+# ---- C12: the text layers ----------------------------------------------------------------------
+
+
+@item("C12", "referenceFormat", "def referenceFormatSrc : List String := [] -- extraction unavailable")
+def _c12_ref(src: Src) -> str:
+    return f"def referenceFormatSrc : List String := {lean_str_list(pinned_source(src, 'cobol_parser', 'reference_format'))}"
+
+
+@item("C12", "sentencePattern", "def sentencePattern : List String := [] -- extraction unavailable")
+def _c12_sentence(src: Src) -> str:
+    return f"def sentencePattern : List String := {lean_str_list(pinned_source(src, 'cobol_parser', 'dde_sentences'))}"
+
+
+@item("C12", "clausesPattern", "def clausesPattern : List String := [] -- extraction unavailable")
+def _c12_clauses(src: Src) -> str:
+    out = []
+    for name in ("SPACE", "NAME", "KEY", "CLAUSES", "clause_pattern"):
+        out.append(f"{name} = {ast.unparse(src.module_assign('cobol_parser', name))}")
+    return f"def clausesPattern : List String := {lean_str_list(out)}"
+
+
+@item("C12", "clauseDict", "def clauseDictSrc : List String := [] -- extraction unavailable")
+def _c12_clause_dict(src: Src) -> str:
+    return f"def clauseDictSrc : List String := {lean_str_list(pinned_source(src, 'cobol_parser', 'clause_dict'))}"
+
+
 # ------------------------------------------------------------------------------------------
 # driver
 # ------------------------------------------------------------------------------------------
